@@ -1,6 +1,7 @@
 /-
   C07 (image part) — `Image::translate(d)` draws the same picture shifted by `d`, the bounding box
   shifts by `d`, and `translate_mut` leaves the value `translate` returns.
+  -- [V] image: `translate_mut` has the same effect as `translate` (mutation through `&mut self` is not modelled; `image_translate_mut` is definitional in the model): carried by correspondence + oracle only
 -/
 import EG.Lemmas.ImageRawImage
 namespace EG.C07
@@ -21,6 +22,11 @@ example : ((Image.new (.raw exIm) ⟨-4, 7⟩).translate ⟨-7, 4⟩).boundingBo
 theorem image_translate_bounding_box (i : Image) (d : Pt) :
     (i.translate d).boundingBox = i.boundingBox.translate d := Image.translate_boundingBox i d
 
+/-- DEFINITIONAL (`rfl`): the model defines `Image.translateMut` and `Image.translate` by the same
+expression (`offset + by`, image/mod.rs `impl Transform`), so this states how the model was written;
+mutation through `&mut self` is not modelled. "`translate_mut` has the same effect as `translate`"
+for images is carried by the oracle on the real code (`C07:image-translate-mut`). Not to be counted
+as a proved sub-claim. -/
 theorem image_translate_mut (i : Image) (d : Pt) : i.translateMut d = i.translate d := rfl
 
 end EG.C07
